@@ -347,6 +347,10 @@ pub fn run(ctx: &Ctx) {
     // written must still be what was requested
     cases.push(Case { group: "p2".into(), shape: "polygon".into(), sides: 6, radius: 0.637556, angle: 120., distance: 1., lj: false, max_replications: 2, steps: 200, inner_steps: 100, extra: vec![], fixed_replications: None, start_config_from: Some(vec!["p1g1".into(), "polygon".into(), "--sides".into(), "4".into()]) });
     cases.push(Case { group: "p2gg".into(), shape: "circle".into(), sides: 4, radius: 0.637556, angle: 120., distance: 1., lj: true, max_replications: 2, steps: 200, inner_steps: 100, extra: vec![], fixed_replications: None, start_config_from: Some(vec!["p2mg".into(), "circle".into()]) });
+    // many replications, with and without verbose logging
+    for (g, shape, lj, reps, verbose) in [("p2", "polygon", false, 64u64, true), ("p2mg", "trimer", false, 56, true), ("p1g1", "circle", true, 51, true), ("p2", "polygon", false, 70, false)].iter() {
+        cases.push(Case { group: g.to_string(), shape: shape.to_string(), sides: 4, radius: 0.637556, angle: 120., distance: 1., lj: *lj, max_replications: 1, steps: 100, inner_steps: 100, extra: if *verbose { vec!["-v".into()] } else { vec![] }, fixed_replications: Some(*reps), start_config_from: None });
+    }
     // many replicas converging onto near-tied scores: the written one must still be the best
     for (g, shape, lj, reps, steps, step) in [("p1", "circle", true, 48u64, 150u64, "0.02"), ("p2", "circle", true, 40, 400, "0.02"), ("p1", "polygon", false, 32, 600, "0.05")].iter() {
         cases.push(Case { group: g.to_string(), shape: shape.to_string(), sides: 4, radius: 0.637556, angle: 120., distance: 1., lj: *lj, max_replications: 1, steps: *steps, inner_steps: 1000, extra: vec!["--max-step-size".into(), step.to_string()], fixed_replications: Some(*reps), start_config_from: None });
